@@ -117,6 +117,8 @@ class Iter:
 
     def item(self, k):
         if self.lo is not None:
+            if z3.is_int_value(self.lo) and self.lo.as_long() == 0:
+                return k
             return self.lo + k
         sub = z3.Select(self.arr.data, k)
         if self.arr.rank == 1:
